@@ -217,6 +217,7 @@ def replay_history_case(case):
                       {"shape": shape, "info": info, "seed": seed, "variant": case.get("variant", 0),
                        "hist": rec["hist"][:i + 1], "expected": exp, "observed": got, "hex": e.data.hex()}))
 
+    hkey = zlib.crc32(repr(shape).encode()) + seed
     for i, o in enumerate(rec["hist"]):
         op = o["op"]
         n += 1
@@ -226,7 +227,18 @@ def replay_history_case(case):
                 continue
             req = {"kind": op}
             req.update({k: o[k] for k in ("i", "off", "len", "start", "stop", "step") if k in o})
-            got = perform(ch, req)
+            unscaled = op == "window" and o["off"] >= 0 and (hkey + i) % 3 == 0
+            if unscaled:
+                # the same window asked for with scaled=False: the stored values (DAQmx: those of scaler 0)
+                try:
+                    r_ = ch.read_data(o["off"], None if o["len"] == NONE else o["len"], scaled=False)
+                    if isinstance(r_, dict):
+                        r_ = r_.get(0, [])
+                    got = {"data": proj.elems(r_)}
+                except Exception as ex:  # noqa
+                    got = {"err": type(ex).__name__, "msg": str(ex)}
+            else:
+                got = perform(ch, req)
             if op == "window" and o["off"] < 0:
                 # outside C04's domain (offset >= 0): what matters here is only that the request behaves as on a fresh
                 # file and leaves no state behind; the oracle is the same request on a freshly opened file
@@ -244,7 +256,9 @@ def replay_history_case(case):
                 exp = {"err": o["res"]["err"]}
                 ok = got.get("err") == exp["err"]
             else:
-                exp = {"data": expected_channel_elems(info, o["ch"], tys[o["ch"]], [vals[o["ch"]][t] for t in o["res"]["vals"]])}
+                sel = [vals[o["ch"]][t] for t in o["res"]["vals"]]
+                exp = {"data": proj.expected_elems(tys[o["ch"]], sel) if unscaled else
+                       expected_channel_elems(info, o["ch"], tys[o["ch"]], sel)}
                 ok = got.get("data") == exp["data"]
             if not ok:
                 fail(i, o, exp, got)
